@@ -323,7 +323,7 @@ theorem not_holds_of_noFallback (cfg : Cfg) (h : cfg.v2Fallback = false) : ¬ Ho
     intro b hb
     simp at hb
     subst hb
-    exact ⟨by intro e he; simp at he; subst he; decide, by simp, by simp [sizeSum, Entry.size, metaEntry, metadataKey]⟩
+    exact ⟨by intro e he; simp at he; subst he; decide, by simp, by simp [sizeSum, Entry.size, metaEntry, metadataKey], by simp⟩
   have := hh.v2 idCodec crc0 0 hdrV2 [[metaEntry]] _ [] [] hv rfl hg rfl (by decide)
     ⟨by decide, Or.inr (by decide)⟩ (by intro e he; simp [writesOf] at he)
   simp only [runOps, List.foldl_nil] at this
